@@ -22,6 +22,25 @@ def run(res, tier, seed):
         x = rr.random()
         return None if x < 0.4 else {"fill": rr.choice(["rand", "ones"])}
     engine.run_ops(res, "C08", OPS, seed + 2, n // 2, 130, W=mixed, tag="/mixed")
+    # transposition of a VIEW for every residue of its width and of its height mod 64 (the wrapper copies a source view
+    # with a partial last word only in some regimes; the kernels read whole source words): parent filled with other data
+    import ops as _ops, gen as _gen
+    gt = _gen.G(seed + 4)
+    tcases = []
+    try:
+        for r in range(64):
+            for shape in ((gt.rng.choice([3, 40, 64, 70, 130]), 64 * gt.rng.choice([0, 1, 2]) + r), (64 * gt.rng.choice([0, 1]) + r, gt.rng.choice([5, 64, 96, 100]))):
+                if min(shape) < 1:
+                    continue
+                _ops.TR_FORCE = shape
+                tcases.append(_ops.build("transpose", gt, lambda role: {"fill": "rand"} if role == "A" else None, 130))
+    finally:
+        _ops.TR_FORCE = None
+    trunner = corr.Runner()
+    cout, mout = trunner.run(tcases)
+    for c in tcases:
+        res.count(("transpose-view", c.meta["shape"][0] % 64, c.meta["shape"][1] % 64))
+    engine.handle_mismatches(res, "C08", corr.compare(tcases, cout, mout), trunner, tag="/view-residues")
     # extraction of triangles beyond one word (rows 64, 128, ... have whole words left of the diagonal)
     engine.run_ops(res, "C08", ["extract_u", "extract_l", "transpose"], seed + 3, n // 4, 300, tag="/wide")
 
